@@ -74,6 +74,24 @@ Theorem C08_path_tables :
 Proof. repeat split; reflexivity. Qed.
 Print Assumptions C08_path_tables.
 
+(* Tie T for the ALGORITHM: `split_object_path_src` is the Gallina function that
+   harness/tables/ObjPathAlg.py translates (symbolic execution of the Python ast) from the
+   CURRENT source text of object_path.split_object_path on every run; it equals the
+   hand-written model on every input, so the two theorems above are statements about the
+   function the source defines now: a path rendered from any component list tokenizes,
+   BY THE TRANSLATED SOURCE, into exactly those components. *)
+From DW Require Import T_ObjPathAlg ObjPathSrcTie.
+Theorem C08_path_source_tie :
+  (forall t c, step_src t c = step t c) /\ (forall t, finish_src t = finish t) /\
+  (forall s, split_object_path_src s = split_object_path s).
+Proof. exact (conj step_src_eq (conj finish_src_eq split_object_path_src_eq)). Qed.
+Print Assumptions C08_path_source_tie.
+
+Theorem C08_path_roundtrip_src :
+  forall p, Forall comp_ok p -> split_object_path_src (render_path p) = map tok_of p.
+Proof. intros p Hp. rewrite split_object_path_src_eq. exact (path_roundtrip p Hp). Qed.
+Print Assumptions C08_path_roundtrip_src.
+
 (* ---- aliases are emitted literally --------------------------------------------- *)
 (* Dump keys, aliases, tag keys and path components are spliced into generated code
    with repr (after fix F5 for dump keys).  For EVERY byte string a, the text
